@@ -1078,6 +1078,20 @@ def rule_node(ctx):
                     if isinstance(t, ast.Subscript) and isinstance(t.value, ast.Attribute) \
                             and t.value.attr == "children":
                         tgt, what = t, "children[...] = "
+                    # (seed C04_11) a whole per-node entry may only be *created empty*: putting a saved dict back
+                    # under a node re-introduces the cached figures (involved, inds, ...) of the node that was removed
+                    if isinstance(t, ast.Subscript) and isinstance(t.value, ast.Attribute) and t.value.attr == "info" \
+                            and _root_name(t) in tree_receivers(ctx, f):
+                        v = n.value
+                        fresh = (isinstance(v, ast.Dict) and not v.keys) or \
+                            (isinstance(v, ast.Call) and dotted(v.func) == "dict" and not v.args and not v.keywords)
+                        k2 = ctx.key(f, "C02-NODE", "info[...] = ")
+                        if fresh:
+                            r.ok(k2, C.loc(f, n), "a per-node entry is created empty")
+                        else:
+                            r.violation(k2, C.loc(f, n), f"`{C.unparse(n, 60)}` installs an existing dictionary as a node's entry: "
+                                        f"whatever it caches (involved, inds, einsum_eq, ...) describes the node as it was, not "
+                                        f"the node re-created with other children — later slicing and cost updates start from it")
             elif isinstance(n, ast.Call) and isinstance(n.func, ast.Attribute) and \
                     n.func.attr in ("clear", "pop", "popitem"):
                 v = n.func.value
